@@ -26,6 +26,7 @@
   Reflexivity and symmetry of `equals` in the set modes need none of the hash hypotheses.
 -/
 import JdProofs.EqualsList
+import JdProofs.Common
 
 namespace Jd
 open Jd.Spec
@@ -82,35 +83,12 @@ theorem digits_sum (n : Nat) (h : n < 2 ^ 64) :
       n / 2 ^ 56 % 256 * 2 ^ 56 := by
   omega
 
-/-- the sort key of `hashCodes.Less` (`bytes.Compare` on the little-endian arrays) is injective -/
-theorem bswap_inj (a b : UInt64) (h : bswap a = bswap b) : a = b := by
-  apply UInt64.toNat_inj.1
-  have e := congrArg UInt64.toNat h
-  rw [bswap_toNat, bswap_toNat] at e
-  have hm : ∀ n : Nat, n % 256 < 256 := fun n => Nat.mod_lt _ (by decide)
-  have key := digits_inj _ _ _ _ _ _ _ _ _ _ _ _ _ _ _ _
-    (hm _) (hm _) (hm _) (hm _) (hm _) (hm _) (hm _) (hm _)
-    (hm _) (hm _) (hm _) (hm _) (hm _) (hm _) (hm _) (hm _) e
-  exact (digits_sum a.toNat a.toNat_lt).trans (key.trans (digits_sum b.toNat b.toNat_lt).symm)
-
 /-! ### 1. canonical form of sorted hash lists -/
 
 /-- the non-strict order of `hashCodes.Less` -/
 def hle (a b : UInt64) : Prop := bswap a ≤ bswap b
 
-theorem hinsert_perm (h : UInt64) : ∀ l, (hinsert h l).Perm (h :: l)
-  | [] => by simp [hinsert]
-  | x :: r => by
-    simp only [hinsert]
-    split
-    · exact List.Perm.refl _
-    · exact ((hinsert_perm h r).cons x).trans (List.Perm.swap h x r)
-
-theorem hsort_perm : ∀ l, (hsort l).Perm l
-  | [] => List.Perm.refl _
-  | a :: l => (hinsert_perm a (hsort l)).trans ((hsort_perm l).cons a)
-
-theorem hinsert_sorted (h : UInt64) : ∀ l, l.Pairwise hle → (hinsert h l).Pairwise hle
+theorem hinsert_sorted_es (h : UInt64) : ∀ l, l.Pairwise hle → (hinsert h l).Pairwise hle
   | [], _ => by simp [hinsert]
   | x :: r, hs => by
     rw [List.pairwise_cons] at hs
@@ -125,27 +103,21 @@ theorem hinsert_sorted (h : UInt64) : ∀ l, l.Pairwise hle → (hinsert h l).Pa
       · exact UInt64.le_trans (UInt64.le_of_lt hlt') (hs.1 y hy)
     · next hnlt =>
       have hle' : bswap x ≤ bswap h := by simpa [hashLt, UInt64.not_lt] using hnlt
-      refine List.pairwise_cons.2 ⟨?_, hinsert_sorted h r hs.2⟩
+      refine List.pairwise_cons.2 ⟨?_, hinsert_sorted_es h r hs.2⟩
       intro y hy
       rcases List.mem_cons.1 ((hinsert_perm h r).subset hy) with rfl | hy
       · exact hle'
       · exact hs.1 y hy
 
-theorem hsort_sorted : ∀ l, (hsort l).Pairwise hle
+theorem hsort_sorted_es : ∀ l, (hsort l).Pairwise hle
   | [] => List.Pairwise.nil
-  | a :: l => hinsert_sorted a (hsort l) (hsort_sorted l)
+  | a :: l => hinsert_sorted_es a (hsort l) (hsort_sorted_es l)
 
 /-- `sort.Sort(hashCodes)` depends only on the bag of hash codes -/
 theorem hsort_eq_of_perm {l l' : List UInt64} (hp : l.Perm l') : hsort l = hsort l' :=
   List.Perm.eq_of_pairwise (le := hle)
-    (fun a b _ _ h1 h2 => bswap_inj a b (UInt64.le_antisymm h1 h2))
-    (hsort_sorted l) (hsort_sorted l') ((hsort_perm l).trans (hp.trans (hsort_perm l').symm))
-
-theorem mem_hdedup (h : UInt64) : ∀ l, h ∈ hdedup l ↔ h ∈ l
-  | [] => by simp [hdedup]
-  | x :: r => by
-    simp only [hdedup, List.mem_cons, List.mem_filter, mem_hdedup h r]
-    by_cases e : h = x <;> simp [e]
+    (fun a b _ _ h1 h2 => bswap_inj (UInt64.le_antisymm h1 h2))
+    (hsort_sorted_es l) (hsort_sorted_es l') ((hsort_perm l).trans (hp.trans (hsort_perm l').symm))
 
 theorem hdedup_nodup : ∀ l, (hdedup l).Nodup
   | [] => by simp [hdedup]
@@ -158,10 +130,6 @@ theorem hsort_hdedup_ext {l l' : List UInt64} (h : ∀ c, c ∈ l ↔ c ∈ l') 
     hsort (hdedup l) = hsort (hdedup l') :=
   hsort_eq_of_perm ((List.perm_ext_iff_of_nodup (hdedup_nodup l) (hdedup_nodup l')).2
     (fun c => by rw [mem_hdedup, mem_hdedup, h c]))
-
-theorem hashList_eq_map (o : Opts) : ∀ xs, hashList o xs = xs.map (hashCode o)
-  | [] => by simp [hashList]
-  | x :: r => by simp [hashList, hashList_eq_map o r]
 
 /-! ### 2. induction principle for documents, sub-terms -/
 
@@ -252,35 +220,10 @@ theorem subterms_val_sub {kvs : List (String × Json)} {k : String} {v z : Json}
 
 /-! ### 3. hypotheses -/
 
-/-- the bit pattern of `-0` -/
-def negZeroBits : UInt64 := 0x8000000000000000
-
-mutual
-/-- no `-0` anywhere in the document (KF-C04-negzero: `0` and `-0` are `==` as floats, hence
-    equivalent, but their hash codes differ) -/
-def Json.noNegZero : Json → Bool
-  | .num b => b != negZeroBits
-  | .arr _ xs => noNegZeroList xs
-  | .obj kvs => noNegZeroKvs kvs
-  | _ => true
-def noNegZeroList : List Json → Bool
-  | [] => true
-  | x :: r => x.noNegZero && noNegZeroList r
-def noNegZeroKvs : List (String × Json) → Bool
-  | [] => true
-  | (_, v) :: r => v.noNegZero && noNegZeroKvs r
-end
-
 /-- the documents of the set-mode theorems: as read from JSON text (every array node a plain
     `jsonArray`, finite numbers), objects with strictly increasing keys (the model's invariant
     standing for Go maps), and no `-0` -/
 def Json.setDoc (a : Json) : Bool := a.rawDoc && a.wf && a.finiteNums && a.noNegZero
-
-/-- The one IEEE-754 law used (`Float` is opaque to the kernel): `|a - b| ≤ +0` holds only for
-    `a == b`, and two finite bit patterns other than `-0` that are `==` are the same pattern. -/
-structure FloatEq0 : Prop where
-  eq_of_within0 : ∀ a b, finiteBits a = true → finiteBits b = true →
-    a ≠ negZeroBits → b ≠ negZeroBits → numWithin 0 a b = true → a = b
 
 /-- "no FNV collision and no pre-image alias among these nodes": equal hash codes only for
     equivalent nodes. (The converse, equivalent ⇒ equal hash codes, is the theorem `equivB_hash`.) -/
@@ -714,17 +657,6 @@ theorem equalsKvs_refl_setmode (L : FloatLaws) (o : Opts)
       equalsKvs_refl_setmode L o hm hp r kvs
         (fun k' v' h => hsub k' v' (List.mem_cons_of_mem _ h)) ha.2 hw.2 hf.2]
 end
-
-theorem alookup_rawDoc {k : String} {v : Json} :
-    ∀ {kvs : List (String × Json)}, alookup k kvs = some v → rawDocKvs kvs = true →
-      v.rawDoc = true
-  | [], h, _ => by simp [alookup] at h
-  | (k', v') :: r, h, hd => by
-    simp only [rawDocKvs, Bool.and_eq_true] at hd
-    simp only [alookup] at h
-    split at h
-    · cases h; exact hd.1
-    · exact alookup_rawDoc h hd.2
 
 mutual
 /-- `Equals` is symmetric in the set modes -/
